@@ -104,6 +104,9 @@ impl Decode for Zd {
         });
         Ok(Zd)
     }
+    fn encoded_fixed_size() -> Option<usize> {
+        Some(1)
+    }
 }
 impl Drop for Zd {
     fn drop(&mut self) {
@@ -147,6 +150,10 @@ impl Decode for Tr {
             id
         });
         Ok(Tr { id, payload, heap })
+    }
+    // truthful: every Tr takes exactly 2 bytes on the wire
+    fn encoded_fixed_size() -> Option<usize> {
+        Some(2)
     }
 }
 
